@@ -819,6 +819,56 @@ def r9(db, rep):
     rep.floor("R9", "sibling groups in ContainsVisitor", n, 4)
 
 
+def r10(db, rep):
+    rep.rule("R10", "the walker that marks the owner of an arrow function's `this` can tell arrow functions from other "
+                    "functions: Scope::escape_this_in_enclosing_function_scope reads an arrow flag of the scopes it walks or "
+                    "takes the arrow nesting depth from the collector, whose counter is `old + 1` on entering an arrow; with "
+                    "neither, `() => () => this` in a method marks the outer arrow instead of the method, which then gets no "
+                    "function environment (this === undefined only when the bindings live in registers)")
+    fs = [f for f in db.fns.values() if f.krate == "boa_ast" and cname(f.id) == "Scope::escape_this_in_enclosing_function_scope"]
+    if not rep.anchor("R10", "Scope::escape_this_in_enclosing_function_scope", fs):
+        return
+    w = fs[0]
+    tch, _ = _touched_fields(w)
+    inner_fields = {x.split(".")[-1] for x in tch if x.startswith("Inner.")}
+    extra_fields = inner_fields - {"function", "outer", "this_escaped"}
+    takes_depth = w.rec["argc"] >= 2
+    rep.ob("R10", "escape_this:walker-knows-arrows", bool(extra_fields) or takes_depth,
+           "Scope::escape_this_in_enclosing_function_scope takes only `self` and reads only the `function`/`outer` fields of "
+           "the scopes: it stops at the first enclosing function scope, which for nested arrows is another arrow", loc=w.span)
+    if takes_depth and not extra_fields:
+        # the depth comes from a collector field that is incremented per arrow
+        ok = False
+        for f in db.fns.values():
+            if f.krate != "boa_ast" or "BindingCollectorVisitor" not in f.id or not f.mentions("escape_this_in_enclosing_function_scope"):
+                continue
+            for b, t in f.calls():
+                if cn(t) != "Scope::escape_this_in_enclosing_function_scope" or len(t["args"]) < 2:
+                    continue
+                l = op_local(t["args"][1])
+                flds = set()
+                for r in (roots(f, l) if l is not None else []):
+                    if r[0] == "place":
+                        flds |= {x.split(".")[-1] for x in place_fields(r[1]) if "BindingCollectorVisitor." in x}
+                for g in db.fns.values():
+                    if g.krate != "boa_ast" or "BindingCollectorVisitor" not in g.id or g.name != "visit_function_like":
+                        continue
+                    for bb in g.reachable():
+                        for st in g.blocks[bb]["s"]:
+                            pf = {x.split(".")[-1] for x in place_fields(st["p"]) if "BindingCollectorVisitor." in x}
+                            if pf & flds:
+                                vl = op_local(st["r"]["o"]) if st["r"].get("k") == "use" else None
+                                from facts import provenance
+                                for q in (provenance(g, vl) if vl is not None else ()):
+                                    for b3, i3, r3 in g.defs().get(q, []):
+                                        if i3 != "t" and isinstance(r3, dict) and r3.get("k") in ("bin", "checked") and \
+                                                str(r3.get("op", "")).startswith("Add"):
+                                            ok = True
+        rep.ob("R10", "escape_this:depth-counts-arrows", ok,
+               "the arrow nesting depth handed to escape_this_in_enclosing_function_scope is not a collector field that "
+               "visit_function_like increments per arrow function", loc=w.span)
+
+
 def run(db, rep, tier):
     r1(db, rep)
     r2(db, rep)
@@ -829,6 +879,7 @@ def run(db, rep, tier):
     r7(db, rep)
     r8(db, rep)
     r9(db, rep)
+    r10(db, rep)
     rep.assumptions += [
         "BytecodeEmitter::emit_* functions do not compile expressions (checked through the bytecompiler call graph)",
     ]
